@@ -141,6 +141,7 @@ def run(ctx):
                key="R07.5:rtosc_valid_message_p:unguarded-read",
                what="rtosc_valid_message_p reads a byte of msg at %s before len has been compared" % r.where())
 
+    _scan_form_obligations(ctx, u)
     # ---- R07.6
     tabs = C01.tables(ctx, u)
     ring = tabs["rtosc_message_ring_length"]
@@ -209,3 +210,16 @@ def _len_edges(fn, lslot):
         elif p == "ne" and other == "0":
             out.append((br.block.label, br.succs[0], i, True))
     return out
+
+
+def _scan_form_obligations(ctx, u):
+    # the validator scans a string the way the unchecked readers do (skip the first byte, then look for the NUL):
+    # on untrusted bytes the two forms end a string with a NUL first byte at different places
+    from ..rules import codec_tables as T
+    rtab, _, rsw, _, _ = T.loop_switch_summaries(u, "rtosc_message_ring_length")
+    atab, _, _, asw, _ = T.arg_size_table(u)
+    for tag in ("s", "S"):
+        a = rtab[tag].scan_forms if tag in rtab else None
+        b = atab[tag].scan_forms if tag in atab else None
+        ctx.ob("R07.6", "string scan form ['%s']" % tag, a is not None and a == b and a, site=A.where(rsw), detail={"validator": a, "arg_size": b},
+               what="tag '%s': the validator scans strings %s, arg_size %s - they end a string whose first byte is NUL at different offsets" % (tag, a, b))
